@@ -66,15 +66,20 @@ def run(eng, R):
         check(eng, R, "S-abs", SG, "error_rel.fset", "store", "array(err_val, dtype=float) * abs(self.reference)", target="self._err", when="=not (self.relative)", what="setting relative values on an absolute source multiplies by |reference|", known=KS)
         from .formulas import extract
 
-        fcm = get_func(p, SG, "_calculate_cov_mat")
+        # the function that stores the correlated part of the absolute covariance (named `_calculate_cov_mat` on the reference tree; found by what it stores)
+        sgc = p.find_class(SG.split(":")[-1]) if ":" in SG else p.find_class(SG)
+        fcm = next((m for m in sgc.methods.values() if hasattr(m, "node") and any(isinstance(a, ast.Assign) and any(self_attr(t) == "_cov_mat_cor_part" for t in a.targets)
+                                                                                   for a in ast.walk(eng.cnode(m)))), None)
+        if fcm is None:
+            fcm = get_func(p, SG, "_calculate_cov_mat")
         KC = KS + ["self._corr_coeff", "()diag", "()outer", "()zeros_like", "self.error_rel", "self.error", "self.reference"]
         got = sorted({x.canon() for _, x, _ in extract(fcm, "store", "self._cov_mat_cor_part", ["(self.relative)", "(self._corr_coeff > 0)"], node=eng.cnode(fcm))})
-        if got == ["self._corr_coeff*outer(self.error,self.error)"]:
-            R.ob("S-abs", "%s._calculate_cov_mat:_abs_err:=(self.relative)" % SG, False, (fcm.file, fcm.lineno),
+        if len(got) == 1 and sorted(got[0].split("*")) == sorted("self._corr_coeff*outer(self.error,self.error)".split("*")):
+            R.ob("S-abs", "%s.%s:_abs_err:=(self.relative)" % (SG, fcm.name), False, (fcm.file, fcm.lineno),
                  "the covariance of a relative source is built from `self.error`, i.e. relative size x |reference| (rule S-abs on the error getter): the sign of the "
                  "reference is lost, so the correlated part differs from the explicit matrix form (sigma sigma^T) o rho for references of mixed sign")
         else:
-            check(eng, R, "S-abs", SG, "_calculate_cov_mat", "store", "outer(self.error_rel * self.reference, self.error_rel * self.reference) * self._corr_coeff", target="self._cov_mat_cor_part",
+            check(eng, R, "S-abs", SG, fcm.name, "store", "outer(self.error_rel * self.reference, self.error_rel * self.reference) * self._corr_coeff", target="self._cov_mat_cor_part",
                   when=["(self.relative)", "(self._corr_coeff > 0)"], known=KC,
                   what="the covariance of a relative source is built from relative size x signed reference values (the sign carries into the correlated part)")
 
